@@ -406,7 +406,7 @@ def fam_assign(ctx):
         ctx.sut(est.fit, P.X.copy())
         # new data, not the training data
         Y = M.gen_points(t, t.irange(1, 20), P.dim, P.dtype)
-        if P.metric_name == 'callable' and P.dtype == 'float32' and t.flag():
+        if P.metric_name.startswith('callable') and P.dtype == 'float32' and t.flag():
             # wider element type than the training data (a user metric accepts it): values float32 cannot hold
             Y = Y.astype(np.float64) + 1e5 + np.arange(len(Y))[:, None] * 1e-3
             ctx.hit('predict_wider_dtype')
